@@ -14,7 +14,12 @@ for d in sorted(os.listdir('/verif/seeded')):
     tests = f"{ts['passed']} pass" if ts and ts.get('failed') == 0 else ('build only' if c.get('build_ok') else '?')
     demo = c.get('demo', {})
     what = m.get('summary', '').split('. ')[0][:150].replace('|', '/')
-    rows.append(f"| {d} | {m['property']} | {what} | {tests}; demo {demo.get('unchanged_exit')}/{demo.get('changed_exit')} | {'; '.join(caught) or '-'} | {', '.join(missed) or '-'} |")
-print("| id | breaks | change (first sentence of the author's summary) | suite; demo unchanged/changed | caught by (violation kinds) | ran clean |")
+    extra = ''
+    if m.get('superseded'):
+        extra = ' (superseded, see meta.json)'
+    elif m.get('note') or m.get('rebased'):
+        extra = ' (see note in meta.json)'
+    rows.append(f"| {d} | {m['property']} | {what} | {tests}; demo {demo.get('unchanged_exit')}/{demo.get('changed_exit')}; at {c.get('repo_head','?')}{extra} | {'; '.join(caught) or '-'} | {', '.join(missed) or '-'} |")
+print("| id | breaks | change (first sentence of the author's summary) | suite; demo unchanged/changed; /repo HEAD | caught by (violation kinds) | ran clean |")
 print("|---|---|---|---|---|---|")
 print("\n".join(rows))
